@@ -163,6 +163,19 @@ def make_items(tier, seed):
         longs.append({"nq": 3, "gates": pal + ([["x", [2]]] if n % 2 else []) + pal[::-1] + [["h", [2]], ["cx", [2, 0]]]})
     for i in range(0, len(longs), 6):
         items.append({"fam": "long-runs", "circuits": longs[i : i + 6]})
+    # small classical circuits embedded into a 13-qubit register through an injective wire map
+    # (qubit names of one and of two digits, sections that touch far-apart qubits)
+    import itertools as _it
+
+    base = [c["gates"] for c in special if c["nq"] <= 3 and all(g[0] in ("x", "cx", "ccx", "barrier") for g in c["gates"])]
+    base += [list(seq) for i, seq in enumerate(_it.product(Ac, repeat=3)) if i % (11 if tier == "thorough" else 29) == 0]
+    base += [[["cx", [0, 1]], ["x", [1]], ["cx", [0, 1]]], [["ccx", [0, 1, 2]], ["x", [2]], ["ccx", [0, 1, 2]], ["x", [0]]], [["cx", [1, 0]], ["cx", [2, 0]], ["cx", [1, 0]]]]
+    emb = []
+    for gl in base:
+        for m in ([3, 10, 7], [10, 2, 11], [11, 1, 0], [2, 12, 5]):
+            emb.append({"nq": 13, "gates": [[g[0], [m[q] for q in g[1]]] + g[2:] for g in gl]})
+    for i in range(0, len(emb), 40):
+        items.append({"fam": "embedded", "circuits": emb[i : i + 40]})
     from .. import corpus
 
     progs = [p[1] for p in corpus.u_ctl()[:: (2 if tier == "thorough" else 7)] if corpus.size_ok(p[1], 8, 50)]
